@@ -1,0 +1,35 @@
+//go:build verif && verif_internal
+
+package otp
+
+// Wrappers around unexported helper functions, for the complete enumeration of the truncate /
+// formatter / padding stage by the /verif harness.  Kept apart (second tag verif_internal) so that
+// a refactoring that changes one of these signatures does not take the table hooks of
+// verif_hooks.go down with it: the harness then builds with `-tags verif` only and drives the same
+// code through the exported API.
+
+func VerifTruncate(sum []byte, mod uint64) uint32 { return truncate(sum, mod) }
+
+func VerifShortDigit(v uint32, digits int) string { return string([]byte(shortDigit(v, digits))) }
+
+func VerifLongDigit(v uint32, digits int) string { return longDigit(v, digits) }
+
+func VerifFormatDecimal(v uint32, digits int) string { return formatDecimal(v, digits) }
+
+func VerifPadBytes(in []byte, n int) []byte { return padBytes(in, n) }
+
+func VerifDeriveRFC4226(secret []byte, counter uint64, digits int, algo Algorithm) (string, error) {
+	return deriveRFC4226(secret, counter, digits, algo)
+}
+
+func VerifDeriveRFC6287(secret []byte, s Suite, in OCRAInput) (string, error) {
+	return deriveRFC6287(secret, s, in)
+}
+
+func VerifValidateRFC4226(code string, secret []byte, counter uint64, digits Digits, algo Algorithm) (bool, error) {
+	return validateRFC4226(code, secret, counter, digits, algo)
+}
+
+func VerifParseRawSuite(raw string) (SuiteConfig, error) { return parseRawSuite(raw) }
+
+func VerifChallengeLength(f ChallengeFormat) int { return challengeLength(f) }
